@@ -361,7 +361,8 @@ def _scn_methods():
         n0 = spec.get('n0', MAXN)
         sub = L['RecSubscriber'](self.world, side, uid, dirn, n0=n0, refill=spec.get('refill', 0),
                                  raise_at=spec.get('raise_at'), cancel_at=spec.get('cancel_at'),
-                                 error_raises=bool(spec.get('error_raises')))
+                                 error_raises=bool(spec.get('error_raises')),
+                                 request_after_cancel=bool(spec.get('request_after_cancel')))
         st['sub'][dirn] = sub
         if spec.get('on_error_start') is not None:
             # the application retries from inside on_error (what a retry operator does): start another interaction
